@@ -14,6 +14,7 @@ import (
 	"go/types"
 	"os"
 	"path/filepath"
+	"regexp"
 	"sort"
 	"strconv"
 	"strings"
@@ -396,7 +397,7 @@ func classify(c *Ctx, findings []Finding, exceptions []Exception) result {
 		if o.OK {
 			continue
 		}
-		k := o.Rule + "\x00" + o.Key
+		k := o.Rule + "\x00" + stripConfig(o.Key)
 		if f, ok := fk[k]; ok {
 			r.known = append(r.known, fmt.Sprintf("KNOWN-FINDING: property=%s %s rule=%s construct=%s (%s): %s", c.Prop, f.ID, o.Rule, o.Key, o.Pos, f.What))
 			continue
@@ -733,3 +734,9 @@ func nonNil(s []string) []string {
 	}
 	return s
 }
+
+var configSuffix = regexp.MustCompile(`@[a-z0-9]+/[a-z0-9]+`)
+
+// stripConfig removes the @goos/goarch marker of non-host configurations: a reviewed
+// exception or known finding applies to the construct in every configuration.
+func stripConfig(key string) string { return configSuffix.ReplaceAllString(key, "") }
